@@ -41,7 +41,7 @@ type c02Machine struct {
 	lastFail  bool
 	flags     map[string]bool
 	aliasable bool
-	curN      int // batch size of the last call
+	curN      int                      // batch size of the last call
 	noisy     func(output string) bool // is this output downstream of an alignment-sensitive float kernel?
 	depth     int
 	batchAxis func(input string) (int, bool) // symbolic batch axis of a graph input
